@@ -52,7 +52,7 @@ def run(tier, seed):
     deadline = time.time() + (900 if tier == "quick" else 6000)
     # refused calls matter as much as accepted ones: S8 (compound constructors with names) and the naming scopes
     # under the DEFAULT policy bring the refusals by the naming rules
-    scns = scenarios.STRUCTURAL + [scenarios.S8, scenarios.S15] + [x for x in scenarios.naming_scenarios() if x.policy == "DEFAULT"]
+    scns = scenarios.STRUCTURAL + [scenarios.S8, scenarios.S15] + scenarios.S18 + [x for x in scenarios.naming_scenarios() if x.policy == "DEFAULT"]
     k = seed % len(scns)
     for scn in scns[k:] + scns[:k]:
         engine_a.explore(ID, scn, tier, cov, found, deadline)
